@@ -145,14 +145,10 @@ def clause_domain(ctx, dets):
                 ok = T.const_py(ev.value) in DOMAIN
                 msg = "constant %r" % (T.const_py(ev.value),)
             else:
-                for g in guards(ev):
-                    a = g.single_atom()
-                    if a is not None and a[0] == "in" and a[1] == ev.value:
-                        tup = a[2].single_atom()
-                        if tup is not None and tup[0] in ("tuple", "list", "set") and all(T.is_pure_const(x) for x in tup[1]):
-                            vals = {T.const_py(x) for x in tup[1]}
-                            ok = vals == DOMAIN
-                            msg = "guarded by membership in %r" % (sorted(map(repr, vals)),)
+                vals = _validated_domain(ev)
+                if vals is not None:
+                    ok = vals == DOMAIN
+                    msg = "guarded by membership in %r" % (sorted(map(repr, vals)),)
                 if not msg:
                     msg = "store of an unvalidated value"
             ctx.ob("WR-domain", setter.qualname, "store _drift_state in setter", ok, msg, ev)
@@ -193,10 +189,47 @@ def clause_domain(ctx, dets):
                     ok = T.const_py(ev.value) in DOMAIN
                     msg = "constant %r" % (T.const_py(ev.value),)
                 else:
-                    ok = any((g.single_atom() or ("",))[0] == "in" for g in guards(ev))
+                    ok = _validated_domain(ev) == DOMAIN
                     msg = "non-constant value validated by the setter" if ok else "unvalidated value"
                 ctx.ob("WR-domain", caller.qualname, "property store drift_state := %s" % q.short(ev.value, 40), ok, msg, site)
     ctx.floor("stores to drift_state", n, 25)
+
+
+def _validated_domain(ev):
+    """The set of constants a guard of the store restricts the stored value to: `v in (k1, k2, ...)` in any spelling that
+    amounts to a disjunction of equalities of v with constants.  None when no guard does."""
+    v = ev.value
+    for g in guards(ev):
+        a = g.single_atom()
+        if a is not None and a[0] == "in" and a[1] == v:
+            tup = a[2].single_atom()
+            if tup is not None and tup[0] in ("tuple", "list", "set") and all(T.is_pure_const(x) for x in tup[1]):
+                return {T.const_py(x) for x in tup[1]}
+        vals = set()
+        ok = True
+        for d in q.disjuncts(g):
+            c = q.is_cmp(d)
+            hit = None
+            if c is not None and c[1] == "==":
+                for k in list(DOMAIN) + ["<other>"]:
+                    if k != "<other>" and (T.same(c[2], v - const(k)) or T.same(c[2], const(k) - v)):
+                        hit = k
+            if hit is None and not (c is not None and c[1] == "==" and T.mentions(d, lambda z: z == v.single_atom())):
+                ok = False
+                break
+            if hit is None:
+                # an equality of v with something that is not a constant of the domain
+                rest = c[2] - v if not T.mentions(c[2] - v, lambda z: z == v.single_atom()) else c[2] + v
+                if T.is_pure_const(-rest) or T.is_pure_const(rest):
+                    vals.add(T.const_py(-rest) if T.is_pure_const(-rest) else T.const_py(rest))
+                else:
+                    ok = False
+                    break
+            else:
+                vals.add(hit)
+        if ok and vals:
+            return vals
+    return None
 
 
 def clause_counters(ctx, dets):
@@ -396,7 +429,7 @@ def clause_warmup(ctx, dets):
 
     base = {"_drift_state": None}
     # PageHinkley / CUSUM: ssr > burn_in
-    for cname, nmin in (("PageHinkley", 1), ("CUSUM", 3)):
+    for cname, nmin in (("PageHinkley", 1), ("CUSUM", 1)):  # (one store per direction branch today; the direction table itself is C04's)
         tr = ctx.trace(cname, "update", assume=base, nonnull=("X",))
         ssr = A("_samples_since_reset") + const(1)
         need(cname, tr, "drift", [S("ssr > A_burn_in", {"ssr": ssr})], nmin)
@@ -620,6 +653,10 @@ def clause_recs_for(ctx, names):
                 same = any(set(map(id, _site_pc_ev(tr, d).pc)) <= set(map(id, ev.pc)) for d in dr)
                 ctx.ob("PAIR", cname + ".update", "recs stored where drift is stored", same, "", ev)
             continue
+        if cname in ("DDM", "EDDM", "LinearFourRates", "STEPD"):
+            # the bookkeeping of these classes is decided as a final-state table (common.recs_table / recs_table_stepd, run by every
+            # caller of this clause); the former statement-level pattern rules raised false alarms on behaviour-preserving rewrites
+            continue
         muts = tr.mutations("_retraining_recs")
         ctx.ob("ROLE", cname + ".update", "recs bookkeeping exists", len(muts) >= 2, "found %d" % len(muts))
         for ev in muts:
@@ -650,16 +687,9 @@ def clause_recs_for(ctx, names):
             ctx.ob("WR-recs", cname + ".update", "the recommendation is re-initialised only by reset(), not while the epoch runs", not re_init,
                    "re-initialising retraining_recs inside update() loses the index at which the detector first entered the warning zone in this epoch",
                    re_init[0] if re_init else None)
-        if cname == "STEPD":
-            # the 'else' (no warning/drift) branch re-initialises the recs
-            nn = [e for e in tr.stores("_retraining_recs") if _is_none_pair(e.value)]
-            ctx.ob("MC-recs", "STEPD.update", "no-alarm branch re-initialises retraining_recs", len(nn) >= 1, "")
-            # every way of returning to state None ends the uninterrupted warning/drift run
-            for e0 in [e for e in tr.stores("_drift_state") if e.value == T.NONE]:
-                s0 = _site_pc_ev(tr, e0)
-                mate = [e for e in nn if (e.pc[: len(s0.pc)] == s0.pc)]
-                ctx.ob("PAIR", "STEPD.update", "every store of state None re-initialises retraining_recs (the run is interrupted)", bool(mate),
-                       "a branch that reports None without clearing the recommendation lets a later alert extend a stale range", s0)
+        # STEPD: "every way of returning to state None re-initialises the recommendation" is decided on the final state by
+        # common.recs_table_stepd (state' None -> [None, None] in every cell), which every caller of this clause also runs;
+        # the former pattern rule on the position of the re-initialising statement raised false alarms on refactored code.
 
 
 def _covered(x, eg):
